@@ -57,6 +57,10 @@ def gen_case(rng):
     for _ in range(n):
         d = {key(rng): tree(rng, rng.randint(1, 3)) for _ in range(rng.randint(1, 4))}
         docs.append(d)
+    if rng.random() < 0.2:
+        # empty documents ({} encodes to zero bytes of TOML): leading, inner, trailing, all
+        for i in ([0] if rng.random() < 0.5 else rng.sample(range(n), rng.randint(1, n))):
+            docs[i] = {}
     if rng.random() < 0.1:
         # strings of the recorded third-party emitter findings, kept rare so that YAML stays tested
         docs[0][rng.choice(["kf", rng.choice(KF_STRINGS)])] = rng.choice(KF_STRINGS)
